@@ -40,6 +40,8 @@ deriving DecidableEq, Repr
 def mayRaise : String → Raises
   | "self.interpreter.tick" => .anything
   | "self._command_manager.tick" => .anything
+  | "self.update_calculated_tags" => .anything   -- a clock tag may be simulated with a non-numeric value
+  | "self.notify_tag_updates" => .anything       -- asserts on the Connection Status value
   | "self.uod.hwl.read_batch" => .hardware
   | "hwl.write_batch" => .hardware
   | _ => .nothing
@@ -60,6 +62,8 @@ theorem tick_sites_guarded : (tickSites ++ readSites ++ writeSites).all siteOk =
 theorem guarded_sites_present :
     (tickSites.any (fun s => s.callee == "self.interpreter.tick" && s.handlersSetError)) = true ∧
     (tickSites.any (fun s => s.callee == "self._command_manager.tick" && s.handlersSetError)) = true ∧
+    (tickSites.any (fun s => s.callee == "self.update_calculated_tags" && s.handlersSetError)) = true ∧
+    (tickSites.any (fun s => s.callee == "self.notify_tag_updates" && s.handlersSetError)) = true ∧
     (readSites.any (fun s => s.callee == "self.uod.hwl.read_batch" && s.handlersSetError)) = true ∧
     (writeSites.any (fun s => s.callee == "hwl.write_batch" && s.handlersSetError)) = true ∧
     visitWrapperMarksFailed = true := by
